@@ -114,7 +114,7 @@ var xsdTypes = []xsdT{
 		canon: []string{"", "00", "0FB7", "DEADBEEF", "0123456789ABCDEF"}, valid: []string{"0fb7", " 0F ", "aB"}, bad: []string{"0", "0FB", "0G", "0F B7", "0x0F", "zz", "0F-B7", "é"}},
 	{name: "base64Binary", lex: regexp.MustCompile(`^(([A-Za-z0-9+/] ?){4})*(([A-Za-z0-9+/] ?){3}[A-Za-z0-9+/]|([A-Za-z0-9+/] ?){2}[AEIMQUYcgkosw048] ?=|[A-Za-z0-9+/] ?[AQgw] ?= ?=)?$`), ws: "collapse", mapFn: wrap(xsdtype.MapBase64Binary),
 		canon: []string{"", "AA==", "AAA=", "AAAA", "aGVsbG8=", "aGVsbG8h", "/+8="}, valid: []string{"aGVs bG8=", " AAAA ", "A A A A", "AA = ="},
-		bad:   []string{"A", "AA", "AAA", "AA=", "A===", "AAAA=", "AB==", "AAB=", "aGVsbG8", "aGV*bG8=", "====", "AA==AA==", "-_8="}},
+		bad: []string{"A", "AA", "AAA", "AA=", "A===", "AAAA=", "AB==", "AAB=", "aGVsbG8", "aGV*bG8=", "====", "AA==AA==", "-_8="}},
 	{name: "string", lex: regexp.MustCompile(`(?s)^.*$`), ws: "preserve", mapFn: wrap(xsdtype.MapString),
 		canon: []string{"", "a", " a  b ", "\ta\n", "é", "\U0001F600"}},
 	{name: "anyURI", lex: regexp.MustCompile(`(?s)^.*$`), ws: "collapse", mapFn: wrap(xsdtype.MapAnyURI),
@@ -127,10 +127,10 @@ var xsdTypes = []xsdT{
 		canon: []string{"2020-01-01T00:00:00Z", "1999-12-31T23:59:59.5Z"}, valid: []string{"2020-01-01T00:00:00+05:30"}, bad: []string{"2020-01-01T00:00:00", "", "2020-01-01"}},
 	{name: "date", lex: regexp.MustCompile(`^` + reYear + `-` + reMon + `-` + reDay + reTZ + `$`), ws: "collapse", mapFn: wrap(xsdtype.MapDate),
 		canon: []string{"2020-01-01", "2020-01-01Z", "2004-02-29"}, valid: []string{"2020-01-01+05:30", "2020-01-01-14:00", "-0044-03-15", "12020-01-01"},
-		bad:   []string{"", "2020-1-1", "2020-13-01", "2020-02-30", "2021-02-29", "2020-01-01T00:00:00", "20200101", "2020-01-01z", "2020-01-01+15:00", "01-01-2020"}},
+		bad: []string{"", "2020-1-1", "2020-13-01", "2020-02-30", "2021-02-29", "2020-01-01T00:00:00", "20200101", "2020-01-01z", "2020-01-01+15:00", "01-01-2020"}},
 	{name: "time", lex: regexp.MustCompile(`^` + reTime + reTZ + `$`), ws: "collapse", mapFn: wrap(xsdtype.MapTime),
 		canon: []string{"00:00:00", "23:59:59Z", "12:30:00.5", "12:30:00.125Z"}, valid: []string{"12:30:00+05:30", "24:00:00", "12:30:00.000"},
-		bad:   []string{"", "12:30", "1:30:00", "25:00:00", "12:60:00", "12:30:60", "12:30:00z", "12.30.00", "T12:30:00", "12:30:00.", "24:00:01"}},
+		bad: []string{"", "12:30", "1:30:00", "25:00:00", "12:60:00", "12:30:60", "12:30:00z", "12.30.00", "T12:30:00", "12:30:00.", "24:00:01"}},
 	{name: "gYear", lex: regexp.MustCompile(`^` + reYear + reTZ + `$`), ws: "collapse", mapFn: wrap(xsdtype.MapGYear),
 		canon: []string{"2020", "2020Z", "0001"}, valid: []string{"2020+05:30", "-0044", "12020"}, bad: []string{"", "20", "020", "02020", "2020-", "2020z", "twenty"}},
 	{name: "gYearMonth", lex: regexp.MustCompile(`^` + reYear + `-` + reMon + reTZ + `$`), ws: "collapse", mapFn: wrap(xsdtype.MapGYearMonth),
